@@ -188,7 +188,10 @@ func c04Check(env *core.Env, cc core.Case) core.Verdict {
 	args = append(args, "regex", "generate", "-")
 	r := sut.Run(sut.Cmd{Bin: env.Bin, Args: args, Stdin: []byte(program), Dir: root})
 	v := core.Verdict{Status: core.Held, Features: []string{"cfg:" + c.CfgName, "kind:" + c.Kind, "surround:" + c.Surround}, Counts: map[string]int{}}
-	if r.Class() == sut.ClassFault || r.Class() == sut.ClassTimeout {
+	if r.Class() == sut.ClassTimeout {
+		return core.Incon("watchdog hit, not judged: %s", describe(r))
+	}
+	if r.Class() == sut.ClassFault {
 		return core.Viol("crash", "generate crashed: %s\nprogram=%s", describe(r), core.Q(program))
 	}
 	if r.Exit != 0 {
